@@ -559,3 +559,29 @@ def sort_key_field(fi, node, depth: int = 0):
         if len(inside) == 1:
             return sort_key_field(fi, inside[0], depth + 1)
     return None
+
+
+def threshold_profile(rc, m: LoopModel, rule_range: str, rule_complete: str):
+    """The threshold-RDP rules read the original formulation of rdp.rdp: both children are pushed back whatever their size and a
+    range of at most two points is accepted when it is popped.  A loop that instead pushes a child only if it has an interior
+    point (the formulation of the fixed-size / global loops) and assembles its result afterwards is another, equally valid
+    algorithm text: of it only the facts stated for that formulation are decided - children are strict sub-ranges with an
+    interior point, and *every* such child is pushed - and the rest is reported as not read (exit 2), never as a violation."""
+    pushes_guarded = bool(m.pushes) and all(
+        isinstance(p.items[-1], Rat) and isinstance(p.items[-2], Rat) and g_implies(p.guard, canon_sign(p.items[-1].sub(p.items[-2]).sub(C(2)), OPS[">"]))
+        for p in m.pushes)
+    if not pushes_guarded:
+        return
+    res = rc.res
+    from . import c01 as _c01, c05 as _c05
+    sf = len(res.findings)
+    _c01._r1(rc, m, f"{m.qual}[guarded pushes]")
+    _c01._r1b_push_guards(rc, m, f"{m.qual}[guarded pushes]")
+    _c05._x10(rc, m, f"{m.qual}[guarded pushes]")
+    for f in res.findings[sf:]:
+        f.rule = rule_complete if f.rule == "X10" else rule_range
+    for o in res.obligations:
+        if o.rule in ("X10", "R1", "R1b") and m.qual in (o.where if hasattr(o, "where") else "") and False:
+            pass
+    raise AnalysisError(f"{m.qual}: the loop pushes a child only when it has an interior point and assembles its result after the loop - this formulation of "
+                        "threshold RDP is read only for the strict-sub-range and every-child-is-pushed facts; the remaining rules are not decided")
